@@ -1130,10 +1130,10 @@ REQUIRED_CLASSES = {"thorough": [f"op4:{v[4:]}" for v in ALL_VARIANTS if v.start
 
 PARTS = [
     Part("selftest", oracle_selftest, enum=enum_selftest, quick=(16, None), thorough=(16, None), exhaustive=True),
-    Part("op4", oracle_op4, strategy=op4_files, quick=(16, 60), thorough=(16, 800)),
-    Part("op2", oracle_op2, strategy=op2_files, quick=(16, 45), thorough=(16, 600)),
-    Part("op4_cutover", oracle_op4, enum=enum_op4_cutover, quick=(16, None), thorough=(16, None), exhaustive=True),
-    Part("op2_cutover", oracle_op2, enum=enum_op2_cutover, quick=(16, None), thorough=(16, None), exhaustive=True),
+    Part("op4", oracle_op4, strategy=op4_files, quick=(16, 120), thorough=(16, 1600)),
+    Part("op2", oracle_op2, strategy=op2_files, quick=(16, 90), thorough=(16, 1200)),
+    Part("op4_cutover", oracle_op4, enum=enum_op4_cutover, quick=(8, None), thorough=(8, None), exhaustive=True),
+    Part("op2_cutover", oracle_op2, enum=enum_op2_cutover, quick=(8, None), thorough=(8, None), exhaustive=True),
     Part("op4_sparse_f32", oracle_op4, enum=enum_op4_sparse_f32, quick=(4, None), thorough=(4, None),
          exhaustive=True),
     Part("op2_uint64", oracle_op2, enum=enum_uint64, quick=(4, None), thorough=(4, None), exhaustive=True),
